@@ -82,10 +82,18 @@ def state1(ctx: Ctx, chk) -> None:
     eea = ctx.eea()
     gw = ctx.cls("aiomysensors.gateway.Gateway")
     n = 0
+    from .common import state_attrs
+
+    names = set(state_attrs(ctx).values())
+
+    def _stores_state(s: ast.stmt) -> bool:
+        return any(isinstance(n_, ast.Attribute) and isinstance(n_.ctx, ast.Store) and n_.attr in names for n_ in ast.walk(s))
+
     for fl in gw.mro_methods().values():
         for f in fl:
             if f.name == "__init__":
                 continue
+            f = ctx.inl(f)  # the stores may sit in a private helper of the setter
             stores = [s for s in f.node.body if _stores_state(s)]
             if not stores:
                 continue
@@ -123,7 +131,7 @@ def state1(ctx: Ctx, chk) -> None:
     chk.floor(rule, "functions storing protocol state", n, 1)
 
 
-def _stores_state(s: ast.stmt) -> bool:
+def _stores_state(s: ast.stmt) -> bool:  # default private names (kept for callers outside state1)
     for n in ast.walk(s):
         if isinstance(n, ast.Attribute) and isinstance(n.ctx, ast.Store) and n.attr in STATE_ATTRS:
             return True
